@@ -130,6 +130,13 @@ def ir_cases(rng, tier, only_wf=True):
                     if ret == 2 and (recv == 2 or args):
                         continue
                     cases.append("1 1 | %s" % " ".join(map(str, method_row(recv, flags, ret, 2, args))))
+    # a provided method bounded by `where Self: Sized` (intmode +16 with +4) keeps its slot, alone and between other methods
+    for flags in (20, 28):
+        for recv in (0, 1):
+            for ret in (0, 1, 6):
+                cases.append("1 1 | %s" % " ".join(map(str, method_row(recv, flags, ret, 2, [(0, 2)]))))
+                rows = [method_row(0, 0, 1, 2, [(0, 2)]), method_row(recv, flags, ret, 2, []), method_row(1, 0, 0, 0, [(1, 0)])]
+                cases.append("1 0 | %s" % " ; ".join(" ".join(map(str, r)) for r in rows))
     # a doc comment and an unrelated attribute beside the method's own attributes (receiver field +8) change nothing: in particular
     # #[no_int_result] / #[int_result] keep their meaning
     for ti in (0, 1):
@@ -211,9 +218,9 @@ def grp_cases(rng, tier, mid=4):
 
 # ------------------------------------------------------------------------------------------ behavioural
 REF_OPS = [[0, 5, -3], [6, 2], [6, -1], [6, 5], [7, 4], [7, 3], [7, -1], [8, 200], [8, 7], [9, 7], [10, 0], [10, 1], [10, 3], [10, 2, 1, 5], [10, 1, 2, 5], [10, 3, 1, 8], [10, 0, 1, 4], [10, 9, 2, 3], [10, 2, 0, 6], [10, 1, 1, 0], [12, 255, 70000, -5], [13], [14],
-           [16, 5], [16, -2], [18, 4], [18, -9], [19, 0], [19, 1], [19, 13], [19, -7], [19, 65535], [20, 3], [20, -1], [21, 9],
+           [16, 5], [16, -2], [18, 4], [18, -9], [19, 0], [19, 1], [19, 13], [19, -7], [19, 65535], [20, 3], [20, -1], [21, 9], [26, 0], [26, 1], [26, 5], [26, 13], [26, 65536], [26, -7], [27, 0], [27, -1], [27, -22], [27, 70000], [27, 2147483647], [27, -2147483648], [28, 4], [28, -21], [28, 70001],
            [22, 4], [22, 7], [23, 21], [24], [25, 2], [25, 0]]
-MUT_OPS = [[1, 5], [1, 0], [1, 24], [2, 3], [2, 0], [3, 4], [3, 0], [4, 6], [4, 0], [5, 0], [5, 1], [5, 2], [5, 3], [5, 4], [5, 5], [5, 6], [5, 7], [5, 8], [11, 0], [11, 4], [15], [17, 2], [17, 3]]
+MUT_OPS = [[1, 5], [1, 0], [1, 24], [2, 3], [2, 0], [3, 4], [3, 0], [4, 6], [4, 0], [5, 0], [5, 1], [5, 2], [5, 3], [5, 4], [5, 5], [5, 6], [5, 7], [5, 8], [11, 0], [11, 4], [15], [17, 2], [17, 3], [29, 0, 5], [29, 1, 5], [29, 2, 8], [29, 1, 0], [30, 0], [30, 1], [30, 2], [29, 2, 3], [30, 1]]
 
 
 def shapes_cases(rng, tier):
@@ -233,6 +240,8 @@ def shapes_cases(rng, tier):
                 o[1] = rng.choice([0, 1, -1, 2, 7, 23, 24, 255, 256, -128, 2 ** 31 - 1, -2 ** 31, 65535, rng.range(-1000, 1000)])
                 if o[0] in (1, 2, 3, 4, 11):
                     o[1] = abs(o[1]) % 25
+                if o[0] in (29, 30):
+                    o[1] = abs(o[1]) % 3
                 if o[0] == 5:
                     o[1] = abs(o[1]) % 9
             ops.append(o)
